@@ -239,6 +239,10 @@ class Beam(_Simu):
         wJ_e_pg = groupElem.Get_weightedJacobian_e_pg(matrixType)[elements]
         N_e_pg = groupElem.Get_beam_N_e_pg(beamStructure)[elements]
         N_lag_pg = groupElem.Get_N_pg(matrixType)[:, 0, :]
+        # (Ne, dof_n, dof_n) global -> beam axes: the unknowns name global axes
+        P_e = np.asarray(groupElem._Compute_P_e_pg(beamStructure))[
+            elements, 0, :dof_n, :dof_n
+        ]
 
         # Ne * dof_n * nPe DOFs per element (Hermitian N couples force and moment DOFs)
         dofsValues_u = np.zeros((Ne * dof_n * nPe, len(herm_unknowns)))
@@ -258,11 +262,15 @@ class Beam(_Simu):
                 eval_e = eval_n[connect]
                 eval_e_pg = np.einsum("en,pn->ep", eval_e, N_lag_pg, optimize="optimal")
 
+            # shape functions of the global component `row` (Ne, nPg, dof_n*nPe)
+            N_row_e_pg = np.einsum(
+                "el,epln->epn", P_e[:, :, row], np.asarray(N_e_pg), optimize="optimal"
+            )
             values_e_pg = np.einsum(
                 "ep,ep,epn->epn",
                 wJ_e_pg,
                 eval_e_pg,
-                N_e_pg[:, :, row, :],
+                N_row_e_pg,
                 optimize="optimal",
             )
             dofsValues_u[:, u] = np.sum(values_e_pg, axis=1).ravel()
